@@ -1692,7 +1692,7 @@ def run_c19(ctx):
             # purity is a statement about the implementation alone: a result that differs from the
             # model's is a matter for the other properties, not an alarm here; only the class of
             # non-returning outcomes (abort/hang of the worker) is compared
-            if not returns(seq[i]) and cls(seq[i]) != 'PANIC' and returns(model[i]):
+            if cls(seq[i]) in ('ABORT', 'HANG', 'MISSING') and returns(model[i]):
                 rep.disagree(c, w, seq[i], model[i], tag='sequential')
         for l in rest:
             if l.startswith('MISMATCH'):
